@@ -15,6 +15,7 @@ def coll(op, path, mode, n1, n2, body):
 
 
 def pool(rnd, data, n):
+    has_dots = any(e["key"].get("v") == "dots" for d in data["docs"] if d["av"]["k"] == "map" for e in d["av"]["v"])
     atoms, keys = vlib.atoms_for_docs(data["docs"], 2, rnd, per_path=4)
     rnd.shuffle(atoms)
     fixed = [
@@ -32,8 +33,11 @@ def pool(rnd, data, n):
         coll("any", ["tags"], "default", "name", "", match(["name"], "==", "b")), match(["name"], "==", "web"),
         # the same selector with different patterns / literals
         match(["s"], "matches", "^h"), match(["s"], "matches", "zzz"), match(["s"], "matches", "o$"), match(["name"], "matches", "^web"), match(["name"], "matches", "dev$"),
+        # different selectors whose parts spell the same text when joined
+        match(["dots", "a", "b"], "==", "2"), match(["dots", "a.b"], "==", "1"), match(["dots", "a", "b"], "==", "1"), match(["dots", "a.b"], "!=", "1"),
+        match(["dots", "a/b"], "==", "5"), match(["dots", "a", "c", "d"], "==", "4"), match(["dots", "a", "c/d"], "==", "3"), match(["dots", "a b"], "==", "6"), match(["dots", "ab"], "==", "7"),
     ]
-    return fixed + atoms[:n]
+    return [a for a in fixed if a["sel"]["path"][0] != "dots" or has_dots] + atoms[:n]
 
 
 def main():
